@@ -617,6 +617,9 @@ func genC09(c *Ctx) {
 	for _, v := range vers {
 		rooms[v] = newC09Room(v)
 	}
+	genC09Needed(c, vers)
+	genC09AddAuthEvents(c, vers, rooms)
+	genC09Invariance(c, vers, rooms)
 	genC09Sequences(c, vers, rooms)
 }
 
@@ -690,5 +693,341 @@ func genC09Sequences(c *Ctx, vers []gmsl.RoomVersion, rooms map[gmsl.RoomVersion
 		}
 		r.emitSequence(c, steps, fmt.Sprintf("random v%s: %s", v, strings.Join(names, " ; ")))
 		c.Count(fmt.Sprintf("sequence/random/len=%d", k))
+	}
+}
+
+// ---------------------------------------------------------------------------------------------
+// needed state, AddAuthEvents, invariance
+
+func c09Flag(sk *string) (string, string) {
+	if sk == nil {
+		return "0", ""
+	}
+	return "1", *sk
+}
+
+func init() {
+	// [ver; event JSON ...] -> tuples, one per line: type SP hex(state_key)
+	RegisterImpl("C09.state_needed", func(args [][]byte) ([][]byte, []byte) {
+		pool, err := c09PoolFromArgs(gmsl.RoomVersion(args[0]), args[1:])
+		if err != nil {
+			return args, B("badpool")
+		}
+		return args, c09Tuples(gmsl.StateNeededForAuth(pool).Tuples())
+	})
+	// [type; sender; has state key; state key; content] -> tuples or err
+	RegisterImpl("C09.needed_proto", func(args [][]byte) ([][]byte, []byte) {
+		pe := &gmsl.ProtoEvent{Type: string(args[0]), SenderID: string(args[1]), Content: spec.RawJSON(args[4])}
+		if string(args[2]) == "1" {
+			pe.StateKey = sp(string(args[3]))
+		}
+		n, err := gmsl.StateNeededForProtoEvent(pe)
+		if err != nil {
+			return args, B("err")
+		}
+		return args, c09Tuples(n.Tuples())
+	})
+	// [ver; room id; type; sender; has state key; state key; content; provider event ...] -> ids or err
+	RegisterImpl("C09.add_auth_events", func(args [][]byte) ([][]byte, []byte) {
+		ver := gmsl.RoomVersion(args[0])
+		pool, err := c09PoolFromArgs(ver, args[7:])
+		if err != nil {
+			return args, B("badpool")
+		}
+		pe := &gmsl.ProtoEvent{RoomID: string(args[1]), Type: string(args[2]), SenderID: string(args[3]), Content: spec.RawJSON(args[6])}
+		if string(args[4]) == "1" {
+			pe.StateKey = sp(string(args[5]))
+		}
+		eb := gmsl.MustGetRoomVersion(ver).NewEventBuilderFromProtoEvent(pe)
+		prov, err := gmsl.NewAuthEvents(pool)
+		if err != nil {
+			return args, B("badprovider")
+		}
+		if err := eb.AddAuthEvents(prov); err != nil {
+			return args, B("err")
+		}
+		ids, ok := eb.AuthEvents.([]string)
+		if !ok {
+			return args, B("badtype")
+		}
+		return args, B(strings.Join(ids, ","))
+	})
+	// [ver; event; perms JSON; nBase; base event ...; un-needed event ...] -> verdicts of: the base
+	// provider, the same provider object again, every permutation, un-needed state appended /
+	// prepended, state reduced to the needed tuples
+	RegisterImpl("C09.invariance", func(args [][]byte) ([][]byte, []byte) {
+		ver := gmsl.RoomVersion(args[0])
+		ev, _, err := c09Parse(ver, args[1])
+		if err != nil {
+			return args, B("badevent")
+		}
+		var perms [][]int
+		if err := json.Unmarshal(args[2], &perms); err != nil {
+			return args, B("badperms")
+		}
+		nBase := 0
+		fmt.Sscanf(string(args[3]), "%d", &nBase)
+		pool, err := c09PoolFromArgs(ver, args[4:])
+		if err != nil || nBase > len(pool) {
+			return args, B("badpool")
+		}
+		base, extra := pool[:nBase], pool[nBase:]
+		var out []string
+		out = append(out, c09OneShot(ev, base))
+		// the same provider object evaluated twice more
+		if p, err := gmsl.NewAuthEvents(base); err == nil {
+			for i := 0; i < 2; i++ {
+				out = append(out, c09Safe(func() error { return gmsl.Allowed(ev, p, c09Querier) }))
+			}
+		}
+		for _, pm := range perms {
+			if len(pm) != nBase {
+				return args, B("badperm")
+			}
+			out = append(out, c09OneShot(ev, c09Pick(base, pm)))
+		}
+		out = append(out, c09OneShot(ev, append(append([]gmsl.PDU{}, base...), extra...)))
+		out = append(out, c09OneShot(ev, append(append([]gmsl.PDU{}, extra...), base...)))
+		// reduced to the needed tuples
+		needed := map[gmsl.StateKeyTuple]bool{}
+		for _, t := range gmsl.StateNeededForAuth([]gmsl.PDU{ev}).Tuples() {
+			needed[t] = true
+		}
+		var reduced []gmsl.PDU
+		for _, e := range base {
+			if e.StateKey() != nil && needed[gmsl.StateKeyTuple{EventType: e.Type(), StateKey: *e.StateKey()}] {
+				reduced = append(reduced, e)
+			}
+		}
+		out = append(out, c09OneShot(ev, reduced))
+		return args, B(strings.Join(out, ","))
+	})
+}
+
+var c09MemberValues = []string{`"join"`, `"leave"`, `"invite"`, `"knock"`, `"ban"`, `""`, `"Join"`, `5`, `null`, "-", `["join"]`}
+var c09TpiValues = []string{"-", `null`, `{}`, `{"signed":{}}`, `{"signed":{"token":"tok"}}`, `{"signed":{"token":""}}`, `{"signed":{"token":5}}`,
+	`{"signed":"x"}`, `{"signed":null}`, `"str"`, `7`, `[]`, `true`,
+	`{"signed":{"token":"tok2","mxid":"@x:y","signatures":{"id":{"ed25519:0":"sig"}}}}`, `{"signed":{"token":"tok","signatures":"bad"}}`,
+	`{"display_name":5,"signed":{"token":"t3"}}`, `{"Signed":{"TOKEN":"upper"}}`, `{"signed":{"token":"aé\n\"q"}}`,
+	`{"signed":{"token":"tok","signatures":{"id":{"k":5}}}}`, `{"signed":{"token":"tok","signatures":{"id":null}}}`}
+var c09ViaValues = []string{"-", `""`, `"@alice:a"`, `"@SENDER"`, `5`, `null`, `"zzz"`, `"!first"`, `"@bob:b"`, `["@alice:a"]`}
+var c09MemberKeys = []string{"membership", "membership", "membership", "Membership", "MEMBERSHIP"}
+var c09ViaKeys = []string{"join_authorised_via_users_server", "join_authorised_via_users_server", "JOIN_AUTHORISED_VIA_USERS_SERVER", "Join_Authorised_Via_Users_Server"}
+var c09TpiKeys = []string{"third_party_invite", "third_party_invite", "Third_Party_Invite"}
+
+func c09MemberContent(c *Ctx, mv, tv, vv, sender string, variantKeys bool) string {
+	var parts []string
+	pick := func(l []string) string {
+		if !variantKeys {
+			return l[0]
+		}
+		return l[c.Rng.Intn(len(l))]
+	}
+	if mv != "-" {
+		parts = append(parts, fmt.Sprintf("%q:%s", pick(c09MemberKeys), mv))
+	}
+	if tv != "-" {
+		parts = append(parts, fmt.Sprintf("%q:%s", pick(c09TpiKeys), tv))
+	}
+	if vv != "-" {
+		if vv == `"@SENDER"` {
+			vv = fmt.Sprintf("%q", sender)
+		}
+		parts = append(parts, fmt.Sprintf("%q:%s", pick(c09ViaKeys), vv))
+	}
+	if c.Rng.Intn(3) == 0 {
+		parts = append(parts, `"displayname":"d"`)
+	}
+	if c.Rng.Intn(12) == 0 {
+		parts = append(parts, `"mxid_mapping":{"user_room_key":"k","user_id":"@u:x"}`)
+	}
+	if c.Rng.Intn(20) == 0 {
+		parts = append(parts, `"mxid_mapping":"bad"`)
+	}
+	c.Rng.Shuffle(len(parts), func(a, b int) { parts[a], parts[b] = parts[b], parts[a] })
+	return "{" + strings.Join(parts, ",") + "}"
+}
+
+func genC09Needed(c *Ctx, vers []gmsl.RoomVersion) {
+	senders := []string{uAlice, uBob, "", "zed"}
+	sks := []*string{nil, sp(""), sp(uBob), sp(uAlice), sp("zzz"), sp("!aaa")}
+	types := []string{spec.MRoomCreate, "m.room.aliases", spec.MRoomMember, spec.MRoomPowerLevels, spec.MRoomJoinRules, "m.room.redaction",
+		"m.room.message", spec.MRoomThirdPartyInvite, "", "M.ROOM.MEMBER", "m.room.member ", "org.example.custom", "m.room.topic"}
+	other := []string{`{}`, `null`, `5`, `"s"`, `[]`, `true`, `{"membership":"join"}`, `{"membership":"join","join_authorised_via_users_server":"@carol:c","third_party_invite":{"signed":{"token":"t"}}}`}
+	w := newC09World(vers[0])
+	wFor := func(v gmsl.RoomVersion) *c09World { w2 := newC09World(v); w2.n = 500 + c.Rng.Intn(1000); return w2 }
+	_ = w
+	i := 0
+	emit := func(v gmsl.RoomVersion, typ, sender string, sk *string, content string, desc string) {
+		ww := wFor(v)
+		idx := ww.mk(typ, sender, sk, json.RawMessage(content), nil)
+		c.Run("C09.state_needed", [][]byte{B(string(v)), ww.pool[idx].js}, "C09.state_needed", "", desc)
+		flag, skv := c09Flag(sk)
+		c.Run("C09.needed_proto", Args(typ, sender, flag, skv, content), "C09.needed_proto", "", desc)
+	}
+	// every type x state key x sender x content shape
+	for _, typ := range types {
+		for _, sk := range sks {
+			for _, content := range other {
+				i++
+				emit(vers[i%len(vers)], typ, senders[i%len(senders)], sk, content, "type x state key x content")
+				c.Count("needed/type=" + typ)
+			}
+		}
+	}
+	// member events: membership x third_party_invite x authoriser (exact keys), state key and sender cycling
+	stride := c.Scale(3, 1)
+	for a, mv := range c09MemberValues {
+		for b, tv := range c09TpiValues {
+			for d, vv := range c09ViaValues {
+				i++
+				if (a+b+d)%stride != 0 && !(mv == `"join"` && (tv == "-" || vv == "-")) {
+					continue
+				}
+				sender := senders[i%2]
+				emit(vers[i%len(vers)], spec.MRoomMember, sender, sks[i%len(sks)], c09MemberContent(c, mv, tv, vv, sender, false), "member product")
+				c.Count("needed/member-product")
+			}
+		}
+	}
+	// random member contents with case variants of the keys
+	n := c.Scale(300, 4000)
+	pick := func(l []string) string { return l[c.Rng.Intn(len(l))] }
+	for k := 0; k < n; k++ {
+		sender := senders[c.Rng.Intn(2)]
+		emit(vers[c.Rng.Intn(len(vers))], spec.MRoomMember, sender, sks[c.Rng.Intn(len(sks))],
+			c09MemberContent(c, pick(c09MemberValues), pick(c09TpiValues), pick(c09ViaValues), sender, true), "member random, key case variants")
+		c.Count("needed/member-random")
+	}
+	// content texts that are not JSON (proto events only)
+	for _, bad := range []string{``, `{`, `nul`, `{"membership":"join"`, `{"membership":"join"} x`, ` {"membership":"join"} `} {
+		c.Run("C09.needed_proto", Args(spec.MRoomMember, uAlice, "1", uAlice, bad), "C09.needed_proto", "", "content text not JSON")
+		c.Run("C09.needed_proto", Args("m.room.message", uAlice, "0", "", bad), "C09.needed_proto", "", "content text not JSON")
+		c.Count("needed/proto-bad-json")
+	}
+	// bulk: several events at once (sorting and de-duplication across events)
+	n = c.Scale(300, 4000)
+	for k := 0; k < n; k++ {
+		v := vers[c.Rng.Intn(len(vers))]
+		ww := wFor(v)
+		m := 2 + c.Rng.Intn(5)
+		args := [][]byte{B(string(v))}
+		for j := 0; j < m; j++ {
+			typ := pick(types)
+			sender := pick(senders)
+			content := pick(other)
+			if c.Rng.Intn(2) == 0 {
+				typ = spec.MRoomMember
+				content = c09MemberContent(c, pick(c09MemberValues), pick(c09TpiValues), pick(c09ViaValues), sender, false)
+			}
+			idx := ww.mk(typ, sender, sks[c.Rng.Intn(len(sks))], json.RawMessage(content), nil)
+			args = append(args, ww.pool[idx].js)
+		}
+		c.Run("C09.state_needed", args, "C09.state_needed", "", "bulk")
+		c.Count(fmt.Sprintf("needed/bulk/len=%d", m))
+	}
+}
+
+func genC09AddAuthEvents(c *Ctx, vers []gmsl.RoomVersion, rooms map[gmsl.RoomVersion]*c09Room) {
+	n := c.Scale(40, 400)
+	for _, v := range vers {
+		r := rooms[v]
+		w := r.w
+		for k := 0; k < n; k++ {
+			cd := r.cands[c.Rng.Intn(len(r.cands))]
+			if k < len(r.cands) {
+				cd = r.cands[k]
+			}
+			ev := w.pool[cd.ev].pdu
+			ch := r.randomChoice(c, nil)
+			ch.full = c.Rng.Intn(3) > 0
+			if c.Rng.Intn(3) > 0 {
+				ch.create, ch.pl, ch.rule = 0, 0, "restricted"
+			}
+			set := r.provider(c, cd.ev, ch)
+			// sometimes a second event for a key already present (the later one wins)
+			if c.Rng.Intn(4) == 0 {
+				set = append(set, r.creates[c.Rng.Intn(3)], r.pls[c.Rng.Intn(2)])
+				c.Rng.Shuffle(len(set), func(a, b int) { set[a], set[b] = set[b], set[a] })
+			}
+			room := w.roomID
+			switch c.Rng.Intn(10) {
+			case 0:
+				room = ""
+			case 1:
+				room = "!" + w.pool[r.creates[1]].id[1:] // the room of another create event
+			}
+			flag, skv := c09Flag(ev.StateKey())
+			args := Args(string(v), room, ev.Type(), string(ev.SenderID()), flag, skv, string(ev.Content()))
+			for _, k := range set {
+				args = append(args, w.pool[k].js)
+			}
+			c.Run("C09.add_auth_events", args, "C09.add_auth_events", "C09.prop.add_auth_events_covers", "AddAuthEvents "+cd.name+" "+ch.String())
+			c.Count("add_auth_events/v=" + string(v))
+		}
+	}
+}
+
+func genC09Invariance(c *Ctx, vers []gmsl.RoomVersion, rooms map[gmsl.RoomVersion]*c09Room) {
+	n := c.Scale(50, 600)
+	for _, v := range vers {
+		r := rooms[v]
+		w := r.w
+		for k := 0; k < n; k++ {
+			cd := r.cands[c.Rng.Intn(len(r.cands))]
+			if k < len(r.cands) {
+				cd = r.cands[k]
+			}
+			ch := r.randomChoice(c, nil)
+			if c.Rng.Intn(2) == 0 {
+				ch.create, ch.pl = 0, 0
+			}
+			full := ch.full
+			ch.full = false
+			base := r.provider(c, cd.ev, ch)
+			if full { // un-needed state inside the base as well (removed again by the reduction)
+				base = append(base, r.extras[:2+c.Rng.Intn(3)]...)
+				c.Rng.Shuffle(len(base), func(a, b int) { base[a], base[b] = base[b], base[a] })
+			}
+			var perms [][]int
+			for p := 0; p < 4; p++ {
+				perms = append(perms, c.Rng.Perm(len(base)))
+			}
+			rev := make([]int, len(base))
+			for i := range rev {
+				rev[i] = len(base) - 1 - i
+			}
+			perms = append(perms, rev)
+			// un-needed: state of the room whose tuple the event does not need
+			needed := map[gmsl.StateKeyTuple]bool{}
+			for _, t := range gmsl.StateNeededForAuth([]gmsl.PDU{w.pool[cd.ev].pdu}).Tuples() {
+				needed[t] = true
+			}
+			inBase := map[int]bool{}
+			for _, b := range base {
+				inBase[b] = true
+			}
+			var extra []int
+			cands := append(append([]int{}, r.extras...), r.tpi, r.jrs["public"], r.jrs["restricted"])
+			for _, u := range []string{uAlice, uBob, uCarol, uDave, uErin, uFrank, uHeidi} {
+				cands = append(cands, r.members[u])
+			}
+			for _, e := range cands {
+				p := w.pool[e].pdu
+				if !needed[gmsl.StateKeyTuple{EventType: p.Type(), StateKey: *p.StateKey()}] && !inBase[e] && c.Rng.Intn(2) == 0 {
+					extra = append(extra, e)
+				}
+			}
+			pj, _ := json.Marshal(perms)
+			args := [][]byte{B(string(v)), w.pool[cd.ev].js, pj, B(fmt.Sprint(len(base)))}
+			for _, b := range base {
+				args = append(args, w.pool[b].js)
+			}
+			for _, e := range extra {
+				args = append(args, w.pool[e].js)
+			}
+			c.Run("C09.invariance", args, "", "C09.prop.invariance", "invariance "+cd.name+" "+ch.String())
+			c.Count("invariance/v=" + string(v))
+		}
 	}
 }
